@@ -115,8 +115,9 @@ def run(ctx: Ctx):
                 "shuffled, references reordered, -qId/-rId selection, physically restricted files, three single-query runs (one of them the molecule of a contig that is shorter than the other molecules); TLC compares the "
                 "records of the queries present in both runs. non-trivial = distinct (input, variant) comparison in "
                 "which at least one record exists")
-    ctx.assumptions = ["no two references give exactly equal seed scores for a query (ties between references would "
-                       "be broken by listing order; generated references are random, so ties do not occur)"]
+    ctx.assumptions = ["exact ties between references occur only through the deliberate duplicate of the first reference "
+                       "(every second input); the reader returns maps in ascending id order, so the lower id wins whatever "
+                       "the order in the file or after -rId"]
     mc = tlc.run_tlc("MC_Pool", "MC_Pool.cfg" if quick else "MC_Pool_thorough.cfg", ctx.workdir, workers=6, heap_gb=16)
     ctx.add_model("MC_Pool", mc)
     ctx.exhaustive = True
